@@ -339,9 +339,6 @@ impl Prop for C16Prop {
     }
     fn run_impl(&self, req: &str, model_out: &str) -> String {
         let (cmd, args) = parse_req(req);
-        if std::env::var("C16_TRACE").is_ok() {
-            eprintln!("{}", req);
-        }
         let r = run_cmd(&cmd, &args);
         // declared outside the model: only the error / no-error classification is compared
         if model_out == "unmodelled" && r.starts_with("ok ") { "unmodelled".into() } else { r }
